@@ -170,3 +170,15 @@ Theorem C08_distinct_names_give_identity_reading :
     dspec cn (map (fun d => (cn (fst d), snd d)) dl) c = decl_lookup dl c.
 Proof. exact dspec_decl_lookup. Qed.
 Print Assumptions C08_distinct_names_give_identity_reading.
+
+(* the hypotheses on the wiring are necessary (what the cache-slot mutants break) *)
+Theorem C08_shared_slot_refuted : exists cn wiring D h,
+  ~ NoDup (map fst wiring) /\
+  exists T' r, run_history cn wiring (cold_type 2 D) h = Some (T', r) /\ r <> map (fun kc => dspec cn D (snd kc)) h.
+Proof. exact shared_slot_breaks_lookup. Qed.
+Print Assumptions C08_shared_slot_refuted.
+
+Theorem C08_slot_outside_cache_refuted : exists cn wiring D c,
+  lookup cn wiring KInstance c (cold_type 1 D) = RCrash.
+Proof. exact slot_outside_cache_corrupts. Qed.
+Print Assumptions C08_slot_outside_cache_refuted.
